@@ -908,7 +908,7 @@ func (c *Ctx) ORD(rule string, entry ...string) []report.Obligation {
 			for _, l := range findMapLoops(f) {
 				sens, notes := c.classifyLoop(l)
 				key := c.P.FuncID(f) + " :: range " + c.P.KeyTerm(l.rng.X, 3)
-				o := report.Obligation{Rule: rule, Key: key, Pos: c.P.InstrPos(l.rng), Path: r.Path(c.P, f)}
+				o := report.Obligation{Rule: rule, Key: key, Pos: c.P.InstrPos(l.rng), Path: r.Path(c.P, f), Detail: map[string]any{"loop_sig": c.loopSig(l)}}
 				tbl := c.tableOf(l)
 				if len(sens) > 0 && tbl != "" && c.firstMatchOnly(l) {
 					// first-match search over a rule table: at most one pattern matches a path when A1 holds
@@ -1060,3 +1060,36 @@ func (c *Ctx) firstMatchOnly(l *mapLoop) bool {
 }
 
 var _ = tab.MatchPattern
+
+// loopSig identifies a map range by what does not depend on how the ranged value is spelled: the type of the map
+// and the module functions called from the body. The reference tree's signatures (loops.json) let a justified
+// loop be recognised when only its operand was re-spelled (a lookup moved into a helper).
+func (c *Ctx) loopSig(l *mapLoop) string {
+	seen := map[string]bool{}
+	for b := range l.region {
+		for _, in := range b.Instrs {
+			if ci, ok := in.(ssa.CallInstruction); ok {
+				if cal := ci.Common().StaticCallee(); cal != nil && c.P.InModule(cal) {
+					seen[c.P.FuncID(cal)] = true
+				}
+			}
+		}
+	}
+	var cs []string
+	for k := range seen {
+		cs = append(cs, k)
+	}
+	sort.Strings(cs)
+	return c.P.TypeStr(l.rng.X.Type()) + " | calls " + strings.Join(cs, ",")
+}
+
+// LoopSnapshot: ORD key -> signature for every map range of the module (written to loops.json by -snapshot).
+func (c *Ctx) LoopSnapshot() map[string]string {
+	out := map[string]string{}
+	for _, f := range c.P.Funcs {
+		for _, l := range findMapLoops(f) {
+			out[c.P.FuncID(f)+" :: range "+c.P.KeyTerm(l.rng.X, 3)] = c.loopSig(l)
+		}
+	}
+	return out
+}
